@@ -7,7 +7,7 @@ use speclib::textspec::{ArgKind, VOCAB};
 /// Argument words that are invalid from their first character for the given language.
 fn bad_words(k: ArgKind) -> &'static [&'static str] {
     match k {
-        ArgKind::U32Cmp | ArgKind::U64Cmp | ArgKind::U32 => &["x", "@5", "x5", ".5"],
+        ArgKind::U32Cmp | ArgKind::U64Cmp | ArgKind::U32 => &["x", "@5", "x5", ".5", "a\\(b", "\\!5"],
         ArgKind::SizeCmp | ArgKind::TimeCmpMin | ArgKind::TimeCmpDay => &["x", "k", "@1", "q9"],
         ArgKind::TypeList => &["x", "1", "z,f", "Q"],
         ArgKind::Perm => &["x", "8", "=", "z+x", "9644"],
@@ -16,7 +16,7 @@ fn bad_words(k: ArgKind) -> &'static [&'static str] {
     }
 }
 
-const PREFIXES: [&str; 4] = ["", "-true ", "-true -print ", "( -true ) -o "];
+const PREFIXES: [&str; 7] = ["", "-true ", "-true -print ", "( -true ) -o ", "-name café -o ", "-path '/data/日本/*' ", "-name 😀 -iname é "];
 const SUFFIXES: [&str; 3] = ["", " -print", " -o -true"];
 
 #[derive(Clone)]
@@ -101,7 +101,7 @@ fn gen() -> Vec<Case> {
         out.push(Case { input: format!("-true\t{w}\n"), kw: None, word: w.to_string(), family: "unknown-word" });
     }
     let bases = ["", "-true", "-true -o", "( -true", "! ", "-name x -a"];
-    for w in ["foo", "-foo", "-namex", "-not", "x", "-printx", "--help"] {
+    for w in ["foo", "-foo", "-namex", "-not", "x", "-printx", "--help", "foo\\(bar", "\\!x", "a\\b"] {
         for b in bases {
             for suf in SUFFIXES {
                 let input = if b.is_empty() { format!("{w}{suf}") } else { format!("{b} {w}{suf}") };
